@@ -85,6 +85,7 @@ impl Monitor for C08 {
             ("damage_aimed_at_crc", tier.pick(3_000, 100_000)),
             ("frames_retyped_as_another_valid_type", tier.pick(3_000, 100_000)),
             ("damage_kind_empty-frame-chain-to-block-end", tier.pick(3_000, 100_000)),
+            ("damage_aimed_at_len-pointing-at-embedded-frame", tier.pick(2_000, 60_000)),
             ("images_with_a_frame_starting_at_a_forged_entry", tier.pick(100, 3_000)),
         ]
     }
@@ -199,7 +200,13 @@ impl Monitor for C08 {
             }
             // oracle
             let mut bad: Option<(String, serde_json::Value)> = None;
+            let mut embedded_seen: Option<serde_json::Value> = None;
             'q: for (q, qs) in &snap.queues {
+                if q == crate::ops::EMBEDDED_QUEUE {
+                    // the listed finding D6; judged last so that it cannot hide anything else
+                    embedded_seen = Some(json!({"queue": short(q), "records": qs.recs.len(), "position": qs.recs.first().map(|r| r.pos), "len": qs.recs.first().map(|r| r.len)}));
+                    continue;
+                }
                 let mut prev: Option<u64> = None;
                 for r in &qs.recs {
                     acc.count("records_checked_against_append_set");
@@ -225,17 +232,28 @@ impl Monitor for C08 {
                     }
                 }
             }
+            if bad.is_none() {
+                if let Some(w) = embedded_seen {
+                    bad = Some(("frame-embedded-in-a-payload-surfaced-as-record".into(), w));
+                }
+            }
             if let Some((class, what)) = bad {
                 if crc_valid_altered_frame(&img, &dam) {
                     acc.count("crc_collision_classified_inconclusive");
                     acc.inconclusive("a damaged frame verified its checksum (CRC-32 collision)".to_string());
                     continue;
                 }
+                let sig = format!("C08/{}", class);
+                let known = acc.is_known(&sig);
                 acc.violation(
-                    format!("C08/{}", class),
+                    sig,
                     case,
                     json!({"history": run.history_json(run.ops.len()), "damage": descs, "image": img.describe(), "foreign_record": what, "recovered": snap.to_json()}),
                 );
+                if known {
+                    // a listed finding: keep exploring this image's other damage sets
+                    continue;
+                }
                 return;
             }
             if round == 0 {
